@@ -60,3 +60,31 @@ package types
 //@                            v.consensusState.Root == as(cobj, ConsensusState).Root && v.contractAddr == self.ContractAddress && v.commitment == commitment &&
 //@                            str(v.proofKey) == keccak(keyrepr(commit(sourceChain, destChain, sequence)) ++ lpad(bigbytes(104), 32)) &&
 //@                            v.ethProof == as(jsondec(str(proof)), Proof))
+//@
+//@ func (ClientState).VerifyPacketAcknowledgement(ctx, store, cdc, height, proof, sourceChain, destChain, sequence, ackBytes) (err)
+//@   props C08
+//@   dyn height = clienttypes.Height
+//@   let c     = clientOf(store)
+//@   let co    = tibc[consState(c, height.RevisionNumber, height.RevisionHeight)]
+//@   let cobj  = clienttypes.consDecode(val(co))
+//@   ensures height.bound: err == nil ==> !(self.Header.Height.RevisionNumber <u height.RevisionNumber || (self.Header.Height.RevisionNumber == height.RevisionNumber && self.Header.Height.RevisionHeight <u height.RevisionHeight))
+//@   ensures state.known:  err == nil ==> present(co) && clienttypes.decodesCons(val(co)) && isa(cobj, ConsensusState)
+//@   ensures delay:        err == nil ==> self.Header.Height.RevisionHeight - height.RevisionHeight >=u self.GetDelayBlock()
+//@   ensures verified:     err == nil ==> ncalls(verifyMerkleProof) == 1 && (forall v in calls(verifyMerkleProof) :: v.err == nil &&
+//@                            v.consensusState.Root == as(cobj, ConsensusState).Root && v.contractAddr == self.ContractAddress && v.commitment == ackBytes &&
+//@                            str(v.proofKey) == keccak(keyrepr(ack(sourceChain, destChain, sequence)) ++ lpad(bigbytes(104), 32)) &&
+//@                            v.ethProof == as(jsondec(str(proof)), Proof))
+//@
+//@ func (ClientState).VerifyPacketCleanCommitment(ctx, store, cdc, height, proof, sourceChain, destChain, sequence) (err)
+//@   props C08
+//@   dyn height = clienttypes.Height
+//@   let c     = clientOf(store)
+//@   let co    = tibc[consState(c, height.RevisionNumber, height.RevisionHeight)]
+//@   let cobj  = clienttypes.consDecode(val(co))
+//@   ensures height.bound: err == nil ==> !(self.Header.Height.RevisionNumber <u height.RevisionNumber || (self.Header.Height.RevisionNumber == height.RevisionNumber && self.Header.Height.RevisionHeight <u height.RevisionHeight))
+//@   ensures state.known:  err == nil ==> present(co) && clienttypes.decodesCons(val(co)) && isa(cobj, ConsensusState)
+//@   ensures delay:        err == nil ==> self.Header.Height.RevisionHeight - height.RevisionHeight >=u self.GetDelayBlock()
+//@   ensures verified:     err == nil ==> ncalls(verifyMerkleProof) == 1 && (forall v in calls(verifyMerkleProof) :: v.err == nil &&
+//@                            v.consensusState.Root == as(cobj, ConsensusState).Root && v.contractAddr == self.ContractAddress && str(v.commitment) == enc64(sequence) &&
+//@                            str(v.proofKey) == keccak(keyrepr(cleanPt(sourceChain, destChain)) ++ lpad(bigbytes(104), 32)) &&
+//@                            v.ethProof == as(jsondec(str(proof)), Proof))
